@@ -25,11 +25,15 @@
 //!   cdec <Type> <hex>          -> ok <named tree> | reject   (`read_request` / `read_response` / `cbor4ii::serde::from_slice`)
 //!   cgold <Type> <hex>         -> the same for a GOLDEN vector (bytes written by the code as of the day the vector was recorded):
 //!                                 `ok` only if the current code reads it and writes exactly the same bytes back
+//!   decx / recdecx / cdecx / dectrunc / cdectrunc / recdectrunc / crepl / cresp / pchunk: see wire/fam.rs (decoders of the types
+//!                                 with crypto- or parser-validated leaves on damaged input; the codec's size limits; paid chunks)
 //! `dec`/`recdec`/`cdec` print `ok` only when the implementation accepts AND re-serialising the decoded value gives a prefix
 //! of the input (canonical acceptance); the model applies the same rule.  So: model accepts ⇒ implementation accepts
 //! with the same value, canonical inputs are compared exactly, and for every other input only "no panic" is required.
 #[path = "wire/tree.rs"]
 mod tree;
+#[path = "wire/fam.rs"]
+mod fam;
 
 use ant_evm::{EncodedPeerId, PaymentQuote, ProofOfPayment, QuotingMetrics, RewardsAddress};
 use ant_protocol::error::Error as ProtocolError;
@@ -96,12 +100,14 @@ fn rec_t<T: Serialize + DeserializeOwned>(t: &Tree, k: RecordKind) -> Result<Vec
     let v: T = from_tree(t).map_err(|e| format!("tree does not describe a value of this type: {e}"))?;
     try_serialize_record(&v, k).map(|b| b.to_vec()).map_err(|e| format!("{e:?}"))
 }
-fn dec_t<T: Serialize + DeserializeOwned>(b: &[u8]) -> Result<(Tree, Vec<u8>), String> {
+fn dec_t<T: Serialize + DeserializeOwned + std::fmt::Debug>(b: &[u8]) -> Result<(Tree, Vec<u8>), String> {
     let v: T = rmp_serde::from_slice(b).map_err(|e| e.to_string())?;
+    log_like_a_receiver(&v);
     Ok((to_tree(&v).map_err(|e| e.to_string())?, rmp_serde::to_vec(&v).map_err(|e| e.to_string())?))
 }
-fn recdec_t<T: Serialize + DeserializeOwned>(r: &Record) -> Result<(Tree, Vec<u8>), String> {
+fn recdec_t<T: Serialize + DeserializeOwned + std::fmt::Debug>(r: &Record) -> Result<(Tree, Vec<u8>), String> {
     let v: T = try_deserialize_record(r).map_err(|e| format!("{e:?}"))?;
+    log_like_a_receiver(&v);
     Ok((to_tree(&v).map_err(|e| e.to_string())?, rmp_serde::to_vec(&v).map_err(|e| e.to_string())?))
 }
 macro_rules! ty {
@@ -933,7 +939,7 @@ fn exec(line: &str, tys: &[Ty]) -> String {
                     Ok(b) => format!("accepted {}", hex(&b)),
                 })
             }
-            "dec" => {
+            "dec" | "decx" => {
                 let b = unhex(ws[2])?;
                 Some(match (ty(ws[1])?.dec)(&b) {
                     Ok((t, re)) if b.starts_with(&re) => format!("ok {}", t.text()),
@@ -941,7 +947,7 @@ fn exec(line: &str, tys: &[Ty]) -> String {
                     Err(_) => "reject".into(),
                 })
             }
-            "recdec" => {
+            "recdec" | "recdecx" => {
                 let b = unhex(ws[2])?;
                 let r = record(b.clone());
                 let k = match RecordHeader::from_record(&r) {
@@ -961,7 +967,7 @@ fn exec(line: &str, tys: &[Ty]) -> String {
                     Err(e) => format!("bad-value {}", e.replace(char::is_whitespace, "_")),
                 })
             }
-            "cdec" | "cgold" => {
+            "cdec" | "cgold" | "cdecx" => {
                 let b = unhex(ws[2])?;
                 let cty = ctypes().into_iter().find(|t| t.name == ws[1])?;
                 let golden = ws[0] == "cgold";
@@ -979,7 +985,7 @@ fn exec(line: &str, tys: &[Ty]) -> String {
                 let recomputed = back.address().xorname().0 == sha3_256(&value) && back.value.as_ref() == value.as_slice();
                 Some(format!("{} {}", if recomputed { "recomputed" } else { "kept" }, hex(&back.address().xorname().0)))
             }
-            _ => None,
+            _ => fam::exec_fam(&ws, tys),
         }
     }));
     match r {
@@ -1127,7 +1133,25 @@ fn oracle(line: &str, input: &str, res: &str, out: &mut Out, tys: &[Ty]) {
                 }
             }
         }
-        "chunk" => {
+        "dectrunc" | "cdectrunc" | "recdectrunc" => {
+            if res.contains('P') {
+                out.oracle_fail("decoders-never-panic", input, &format!("a decoder panicked on a truncated encoding (cuts: {res})"));
+            } else if res.contains('a') {
+                out.oracle_fail("truncated-message-rejected", input, &format!("a strict prefix of an encoding is accepted as a value (cuts: {res})"));
+            }
+        }
+        "crepl" | "cresp" => {
+            // within the codec's read limit a written message is read back as itself; above it the reader errs (never another value).
+            // That an honest Replicate of <= MAX_RECORDS_COUNT records can be above the limit is known finding
+            // K-r-replicate-exceeds-request-cap: the clause is restricted to what `honest_replicate_fits_iff` covers.
+            let cap: usize = if ws[0] == "crepl" { 1024 * 1024 } else { 10 * 1024 * 1024 };
+            let len: usize = res.split_whitespace().next().and_then(|x| x.strip_prefix("len=")).and_then(|x| x.parse().ok()).unwrap_or(0);
+            let want = if len <= cap { "read=ok" } else { "read=err" };
+            if !res.ends_with(want) {
+                out.oracle_fail("message-size-limit", input, &format!("a {len}-byte message against the {cap}-byte read limit: `{res}`, expected {want}"));
+            }
+        }
+        "chunk" | "pchunk" => {
             if !res.starts_with("recomputed ") {
                 out.oracle_fail("chunk-address-recomputed", input, &format!("decoded chunk address: {res}"));
             }
@@ -1512,8 +1536,19 @@ fn main() {
         }
         v
     };
+    // audit families (wire/fam.rs): damaged input for the decoders of every type with validated leaves, the codec's size limits
+    // on the real codec object, forged addresses in paid chunks — appended, from their own generator state
+    let lines: Vec<String> = if args.replay.is_some() {
+        lines
+    } else {
+        let mut v = lines;
+        v.extend(fam::corpus());
+        v.extend(fam::generate(args.seed, args.n, &tys));
+        v
+    };
     // model-independent, outside the op stream: what the op lines cannot carry
     if args.replay.is_none() {
+        fam::check_tree_writer(args.seed, &mut out, &tys);
         let mut rng = Rng::new(args.seed ^ 0x0C12);
         // the codec object and the call it is documented to make write the same bytes
         for _ in 0..40 {
@@ -1558,6 +1593,9 @@ fn main() {
             "hdrdec" => format!("hdrdec:{}", r.split_whitespace().next().unwrap_or("")),
             "cenc" => format!("cenc:{}:{}", ws[1], Tree::parse(&ws[2..]).map(|(t, _)| variant_path(&t)).unwrap_or_default()),
             "cdec" | "cgold" => format!("{}:{}:{}", ws[0], ws[1], r.split_whitespace().next().unwrap_or("")),
+            "decx" | "recdecx" | "cdecx" => format!("{}:{}:{}:{}", ws[0], ws[1], ws.get(4).copied().unwrap_or("-"), if r.starts_with("ok ") || r.contains(" ok ") { "accepted" } else { "rejected" }),
+            "dectrunc" | "cdectrunc" | "recdectrunc" => format!("{}:{}", ws[0], ws[1]),
+            "crepl" | "cresp" => format!("{}:{}", ws[0], if r.ends_with("read=ok") { "within-limit" } else { "over-limit" }),
             o => o.to_string(),
         };
         out.count(&class);
